@@ -179,6 +179,12 @@ where
 						bytes.extend(data);
 					}
 
+					// A response that the server produced without running the call (e.g. `429 Too Many Requests`
+					// when the connection limit is reached) is not a JSON-RPC response: hand it on as it is.
+					if !parts.status.is_success() {
+						return Ok(HttpResponse::from_parts(parts, HttpBody::from(bytes)));
+					}
+
 					#[derive(serde::Deserialize)]
 					struct SuccessResponse<'a> {
 						#[serde(borrow)]
